@@ -62,8 +62,20 @@ def targets_for(draw, xp, kind, max_targets=8):
     n = draw(st.integers(1, max_targets))
     out = []
     for _ in range(n):
-        c = draw(st.sampled_from(["inside", "inside", "inside", "node", "end", "below", "above", "mid"]))
-        if c == "node":
+        c = draw(st.sampled_from(["inside", "inside", "inside", "node", "end", "below", "above", "mid", "near_end"]))
+        if c == "near_end" and kind != "time":
+            # a hair inside or outside an end node (an ulp, or 1e-7 .. 1e-10 of the span): still inside / already outside
+            e_ = draw(st.sampled_from([lo, hi]))
+            how = draw(st.sampled_from(["ulp_down", "ulp_up", "span_down", "span_up"]))
+            if how == "ulp_down":
+                v = float(np.nextafter(e_, -np.inf))
+            elif how == "ulp_up":
+                v = float(np.nextafter(e_, np.inf))
+            else:
+                v = float(e_ + (1 if how == "span_up" else -1) * (hi - lo) * draw(st.sampled_from([1e-7, 1e-9, 1e-10])))
+        elif c == "near_end":
+            v = draw(st.sampled_from([lo - 1, lo + 1, hi - 1, hi + 1]))
+        elif c == "node":
             v = draw(st.sampled_from(xp))
         elif c == "end":
             v = draw(st.sampled_from([xp[0], xp[-1]]))
